@@ -6,7 +6,7 @@ use crate::report::{Ctx, Tier};
 use crate::run::run_pure;
 use gamedig_id_tests::{test_game_name_rules, test_single_game_rule};
 
-const TOKENS: [&str; 24] = [
+const TOKENS: [&str; 27] = [
     "Dead", "cells", "of", "The", "S.T.A.L.K.E.R.", "IV", "XIV", "MIX", "2", "16", "2003", "D-Day", "Half-Life", "'44-'45", "Isaac:", "4-Ever",
     // words gluing digits and letters (split by the checker where digits and letters meet)
     "3D", "Quake4", "4x4",
@@ -15,6 +15,8 @@ const TOKENS: [&str; 24] = [
     "(Remastered)", "(1999)", "1-2-3",
     // a hyphenated compound whose first part glues letters and a digit
     "F1-Racing", "R2-D2",
+    // numbers beyond 16 bits, alone and as a dashed range (which the checker glues into one number word)
+    "65536", "100000", "1914-1918",
 ];
 const CORE_TOKENS: usize = 19;
 // (short bracket contents too: an edition tag can be shorter than a year)
@@ -211,7 +213,9 @@ impl Prop for C20 {
                         }
                     }
                     // next token sequence (first token fixed)
-                    let limit = if len > 3 && !tier.is_thorough() { CORE_TOKENS } else { TOKENS.len() };
+                    // quick tier: the extra tokens appear in every position of names of up to two tokens and as the first token of
+                    // names of three; thorough: everywhere
+                    let limit = if len > 2 && !tier.is_thorough() { CORE_TOKENS } else { TOKENS.len() };
                     let mut i = len;
                     loop {
                         if i == 1 {
